@@ -426,6 +426,162 @@ theorem accept_shape (t : List TEv) (h : acceptTrace t = true) :
         | other w => simp at this
     | other w => simp [acceptTrace] at h
 
+/-! ### the trace realises the result -/
+
+/-- the stored index files as a store: undecodable files describe nothing -/
+def storeOf (r : Repo) : Store := r.idxs.map fun f => (some f.id, f.content.getD [])
+
+theorem applyAll_append (s : Store) (a b : List Ev) : applyAll s (a ++ b) = applyAll (applyAll s a) b := by
+  simp [applyAll, List.foldl_append]
+
+theorem applyAll_removeIds (ids : List ID) : ∀ (s : Store),
+    applyAll s (ids.map Ev.removeIdx) = s.filter (fun f => ids.all fun i => f.1 != some i) := by
+  induction ids with
+  | nil => intro s; simp [applyAll]
+  | cons i ids ih =>
+    intro s
+    simp only [List.map_cons, applyAll, List.foldl_cons, applyEv]
+    have := ih (s.filter fun f => f.1 != some i)
+    simp only [applyAll] at this
+    rw [this, List.filter_filter]
+    congr 1
+    funext f
+    simp [Bool.and_comm]
+
+theorem mem_storeEntries {s : Store} {x : ID × Entry} :
+    x ∈ storeEntries s ↔ ∃ f ∈ s, x ∈ flat f.2 := by
+  unfold storeEntries
+  rw [mem_flatAll]
+  constructor
+  · rintro ⟨c, hc, hx⟩
+    obtain ⟨f, hf, rfl⟩ := List.mem_map.mp hc
+    exact ⟨f, hf, hx⟩
+  · rintro ⟨f, hf, hx⟩
+    exact ⟨f.2, List.mem_map.mpr ⟨f, hf, rfl⟩, hx⟩
+
+theorem flat_nil_mem (x : ID × Entry) : x ∉ flat [] := by simp [flat]
+
+/-- **the trace realises the result**: applying the command's trace (saves, then removals) to the
+    stored index files leaves index files that describe exactly `Result.entries`. Together with
+    `repairIndex_spec` and `repair_prefix_safe`: the final state is the specified one and every
+    crash prefix describes the initial or that final content. -/
+theorem trace_realises_result (r : Repo) (ra : Bool) (hix : (r.idxs.map (·.id)).Nodup) (x : ID × Entry) :
+    x ∈ storeEntries (applyAll (storeOf r) (repairIndex r ra).trace) ↔ x ∈ (repairIndex r ra).entries := by
+  have hnd := oldIdx_nodup (ra := ra) hix
+  have inv := rewrite_inv (plan r ra).removePacks (plan r ra).oldIdx (plan r ra).obsolete0 hnd
+  have hinj : ∀ f ∈ r.idxs, ∀ g ∈ r.idxs, f.id = g.id → f = g := fun f hf g hg h =>
+    List.inj_on_of_nodup_map hix hf hg h
+  have hold_sub : ∀ f ∈ (plan r ra).oldIdx, f ∈ r.idxs ∧ f.content.isSome := by
+    intro f hf
+    cases ra
+    · simpa [plan, List.mem_filter] using hf
+    · simp [plan] at hf
+  have hobs0 : ∀ f ∈ r.idxs, f ∉ (plan r ra).oldIdx → f.id ∈ (plan r ra).obsolete0 := by
+    intro f hf hno
+    cases ra
+    · simp only [plan, Bool.false_eq_true, if_false, List.mem_filter, not_and] at hno
+      simp only [plan, Bool.false_eq_true, if_false, List.mem_map, List.mem_filter]
+      refine ⟨f, ⟨hf, ?_⟩, rfl⟩
+      cases hc : f.content with
+      | none => rfl
+      | some c => exact absurd (by simp [hc]) (hno hf)
+    · simp only [plan, if_true, List.mem_map]; exact ⟨f, hf, rfl⟩
+  have hobs0' : ∀ i ∈ (plan r ra).obsolete0, ∀ f ∈ (plan r ra).oldIdx, f.id ≠ i := by
+    intro i hi f hf heq
+    cases ra
+    · simp only [plan, Bool.false_eq_true, if_false, List.mem_map, List.mem_filter] at hi hf
+      obtain ⟨g, ⟨hg, hgn⟩, rfl⟩ := hi
+      have := hinj f hf.1 g hg heq
+      subst this
+      cases hc : f.content with
+      | none => simp [hc] at hf
+      | some c => simp [hc] at hgn
+    · simp [plan] at hf
+  -- shape of the final store
+  unfold repairIndex
+  simp only
+  rw [applyAll_append, applyAll_removeIds]
+  rw [mem_storeEntries]
+  unfold Result.entries
+  simp only [List.mem_append, mem_flatAll, List.mem_filterMap, List.mem_filter, List.all_eq_true,
+    bne_iff_ne, ne_eq]
+  constructor
+  · rintro ⟨f, ⟨hf, hkeep⟩, hx⟩
+    -- f is in the store after the saves
+    have hsaves : f ∈ storeOf r ∨ f = (none, createIndexFromPacks (plan r ra).toRead) ∨
+        f = (none, (rewrite (plan r ra).removePacks (plan r ra).oldIdx (plan r ra).obsolete0).newIndex) := by
+      have : ∀ (s : Store) (c : IdxContent) (g : Option ID × IdxContent),
+          g ∈ applyAll s (if c.isEmpty then [] else [Ev.saveIdx c]) → g ∈ s ∨ g = (none, c) := by
+        intro s c g hg
+        split at hg
+        · exact Or.inl (by simpa [applyAll] using hg)
+        · simpa [applyAll, applyEv] using hg
+      rw [applyAll_append] at hf
+      rcases this _ _ _ hf with h | h
+      · rcases this _ _ _ h with h' | h'
+        · exact Or.inl h'
+        · exact Or.inr (Or.inl h')
+      · exact Or.inr (Or.inr h)
+    rcases hsaves with h | h | h
+    · -- an old file that survived the removals: it was kept
+      unfold storeOf at h
+      obtain ⟨g, hg, rfl⟩ := List.mem_map.mp h
+      left; left
+      have hgold : g ∈ (plan r ra).oldIdx := by
+        apply Classical.byContradiction
+        intro hno
+        have := (inv.obsolete_eq g.id).mpr (Or.inl (hobs0 g hg hno))
+        exact hkeep g.id this rfl
+      have hgkept : g ∈ (rewrite (plan r ra).removePacks (plan r ra).oldIdx (plan r ra).obsolete0).kept := by
+        apply Classical.byContradiction
+        intro hno
+        have := (inv.obsolete_eq g.id).mpr (Or.inr ⟨g, hgold, (hold_sub g hgold).2, hno, rfl⟩)
+        exact hkeep g.id this rfl
+      cases hc : g.content with
+      | none => simp only [hc, Option.getD_none] at hx; exact absurd hx (flat_nil_mem x)
+      | some c => simp only [hc, Option.getD_some] at hx; exact ⟨c, ⟨g, hgkept, hc⟩, hx⟩
+    · subst h; exact Or.inl (Or.inr hx)
+    · subst h; exact Or.inr hx
+  · intro hx
+    have hsub : ∀ (s : Store) (c : IdxContent) (g : Option ID × IdxContent),
+        (g ∈ s ∨ (g = (none, c) ∧ ¬ c.isEmpty)) → g ∈ applyAll s (if c.isEmpty then [] else [Ev.saveIdx c]) := by
+      intro s c g hg
+      split
+      · rename_i he
+        rcases hg with hg | ⟨_, hne⟩
+        · simpa [applyAll] using hg
+        · exact absurd he hne
+      · rcases hg with hg | ⟨hg, _⟩
+        · simp [applyAll, applyEv, hg]
+        · simp [applyAll, applyEv, hg]
+    rcases hx with (⟨c, ⟨g, hgk, hc⟩, hx⟩ | hx) | hx
+    · have hgold := inv.kept_sub g hgk
+      refine ⟨(some g.id, g.content.getD []), ⟨?_, ?_⟩, by simpa [hc] using hx⟩
+      · rw [applyAll_append]
+        apply hsub; left; apply hsub; left
+        exact List.mem_map.mpr ⟨g, (hold_sub g hgold).1, rfl⟩
+      · intro i hi heq
+        simp only [Option.some.injEq] at heq
+        rcases (inv.obsolete_eq i).mp hi with h0 | ⟨g', hg', _, hnk, hid⟩
+        · exact hobs0' i h0 g hgold heq
+        · have : g = g' := hinj g (hold_sub g hgold).1 g' (hold_sub g' hg').1 (heq.trans hid.symm)
+          subst this; exact hnk hgk
+    · have hne : ¬ (createIndexFromPacks (plan r ra).toRead).isEmpty := by
+        intro he
+        have : createIndexFromPacks (plan r ra).toRead = [] := by simpa using he
+        rw [this] at hx; exact flat_nil_mem x hx
+      refine ⟨(none, createIndexFromPacks (plan r ra).toRead), ⟨?_, by simp⟩, hx⟩
+      rw [applyAll_append]
+      apply hsub; left; apply hsub; right; exact ⟨rfl, hne⟩
+    · have hne : ¬ (rewrite (plan r ra).removePacks (plan r ra).oldIdx (plan r ra).obsolete0).newIndex.isEmpty := by
+        intro he
+        have : (rewrite (plan r ra).removePacks (plan r ra).oldIdx (plan r ra).obsolete0).newIndex = [] := by simpa using he
+        rw [this] at hx; exact flat_nil_mem x hx
+      refine ⟨(none, _), ⟨?_, by simp⟩, hx⟩
+      rw [applyAll_append]
+      apply hsub; right; exact ⟨rfl, hne⟩
+
+
 /-! ### T1: call orders regenerated from the current source -/
 
 /-- `RepairIndex`: packs are listed and the new index is created from pack headers before the old
